@@ -684,12 +684,35 @@ def tunnelLoop (oldsec newsec oldauth newauth : Bytes) : World → List Tlv → 
         let r := tunnelLoop oldsec newsec oldauth newauth w rest
         (r.1, r.2.map (a' :: ·))
 
+/-- is the outstanding request a Status-Server probe of the proxy's own -/
+def isProbeRq (rq : Rq) : Bool := match rq.msg with | some rm => decide (rm.code = 12) | none => false
+
+/-- the end of an accepted reply: original User-Name back, the client block's rewrite-out, Message-Authenticator, TTL,
+    the client's identifier and authenticator, `sendreply`, and the outstanding slot is released -/
+def replyhDeliver (w : World) (si id o : Nat) (rq : Rq) (m : Msg) (cc : CliConf) (as4 : List Tlv) (ttlres : Int) : World :=
+  -- original User-Name back
+  let as5 :=
+    match rq.origUser, as4.findIdx? (·.t = 1) with
+    | some ou, some ui => as4.set ui { t := 1, v := ou }
+    | _, _ => as4
+  let rout := dorewrite w.rx cc.rwOut as5
+  if cc.rwOut.isSome ∧ !rout.ok then w
+  else
+    let as6 := if cc.rwOut.isSome then rout.attrs else as5
+    let as7 := if m.code = 11 ∨ m.code = 2 ∨ m.code = 3 then ensureMsgAuthFront as6 else as6
+    let as8 := if ttlres = -1 ∧ (w.opts.addttl ≠ 0 ∨ cc.addttl ≠ 0) then
+        addttlattr w.opts.ttlType (if cc.addttl ≠ 0 then cc.addttl else w.opts.addttl) as7
+      else as7
+    let m' : Msg := { code := m.code, id := rq.rqid, auth := rq.rqauth, attrs := as8 }
+    let w := updRq w o fun r => { r with msg := some m' }
+    let w := sendreply (newrqref w o) o
+    freerqoutdata w si id
+
 /-- everything `replyh` does once the reply has been matched to an outstanding, transmitted
     request and found authentic -/
 def replyhCore (w : World) (si id o : Nat) (s0 : Server) (rq : Rq) (m : Msg) : World :=
     let w := updSrv w si fun s => { s with lastrcv := w.now }
-    let rqIsProbe : Bool := match rq.msg with | some rm => decide (rm.code = 12) | none => false
-    if rqIsProbe then
+    if isProbeRq rq then
       let w := freerqoutdata w si id
       updSrv w si fun s => { s with ss := if s.ss = ssAuto then ssMinimal else s.ss }
     else
@@ -701,8 +724,7 @@ def replyhCore (w : World) (si id o : Nat) (s0 : Server) (rq : Rq) (m : Msg) : W
         let (ttlres, as2) := checkttl w.opts.ttlType as1
         if ttlres = 0 then w
         else
-          let ci := rq.frm.getD 0
-          let cc := match getCli w ci with | some c => w.cliConfs.getD c.conf defCli | none => defCli
+          let cc := cliConfOf w (rq.frm.getD 0)
           let fwdAuth := ((rq.buf.getD []).drop 4).take 16
           match msLoop w.H.md5 s0.conf.secret cc.secret fwdAuth rq.rqauth as2 with
           | none => w
@@ -711,26 +733,9 @@ def replyhCore (w : World) (si id o : Nat) (s0 : Server) (rq : Rq) (m : Msg) : W
             let tp : World × Option (List Tlv) :=
               if m.code = 2 then tunnelLoop s0.conf.secret cc.secret ((rq.msg.map (·.auth)).getD []) rq.rqauth w as3
               else (w, some as3)
-            match tp with
-            | (w, none) => w
-            | (w, some as4) =>
-              -- original User-Name back
-              let as5 :=
-                match rq.origUser, as4.findIdx? (·.t = 1) with
-                | some ou, some ui => as4.set ui { t := 1, v := ou }
-                | _, _ => as4
-              let rout := dorewrite w.rx cc.rwOut as5
-              if cc.rwOut.isSome ∧ !rout.ok then w
-              else
-                let as6 := if cc.rwOut.isSome then rout.attrs else as5
-                let as7 := if m.code = 11 ∨ m.code = 2 ∨ m.code = 3 then ensureMsgAuthFront as6 else as6
-                let as8 := if ttlres = -1 ∧ (w.opts.addttl ≠ 0 ∨ cc.addttl ≠ 0) then
-                    addttlattr w.opts.ttlType (if cc.addttl ≠ 0 then cc.addttl else w.opts.addttl) as7
-                  else as7
-                let m' : Msg := { code := m.code, id := rq.rqid, auth := rq.rqauth, attrs := as8 }
-                let w := updRq w o fun r => { r with msg := some m' }
-                let w := sendreply (newrqref w o) o
-                freerqoutdata w si id
+            match tp.2 with
+            | none => tp.1
+            | some as4 => replyhDeliver tp.1 si id o rq m cc as4 ttlres
 
 /-- `RequireMessageAuthenticator` applies to UDP/TCP servers and Access-Accept/Reject/Challenge -/
 def needsMsgAuth (c : SrvConf) (code : UInt8) : Bool :=
@@ -796,6 +801,30 @@ def lossOnAbandon (s : Server) (isProbe : Bool) : Server :=
   else if s.ss = ssAuto ∧ isProbe then (if s.lastreply ≥ s.laststatsrv then { s with ss := ssOff } else s)
   else incLost s
 
+/-- what one pass of the writer does with occupied slot `i` of server `s` (slot contents `sl`, holding request `rq`) -/
+def writerSlot (w : World) (si : Nat) (doResend : Bool) (i : Nat) (s : Server) (sl : Slot) (rq : Rq) : World :=
+  let isProbe : Bool := match rq.buf with | some b => decide (b.getD 0 0 = 12) | none => false
+  let tries := triesAfterReset doResend sl.tries
+  let w := updSrv w si fun s => { s with slots := s.slots.set i { sl with tries := tries } }
+  match slotDecision doResend w.now sl isProbe s.conf.retryCount s.conf.retryInterval with
+  | .wait =>
+    updSrv w si fun s => { s with timeout := if s.timeout = 0 ∨ sl.expiry < s.timeout then sl.expiry else s.timeout }
+  | act =>
+    let w := updSrv w si fun s =>
+      { s with ssRequested := s.ssRequested || (tries > 0 ∧ w.now - s.lastrcv > s.conf.retryInterval ∧ !doResend) }
+    match act with
+    | .dropProbe => freerqoutdata w si i
+    | .abandon =>
+      let w := updSrv w si fun s => lossOnAbandon s isProbe
+      freerqoutdata w si i
+    | .send tries' expiry =>
+      let w := updSrv w si fun s =>
+        { s with slots := s.slots.set i { sl with tries := tries', expiry := expiry },
+                 timeout := if s.timeout = 0 ∨ expiry < s.timeout then expiry else s.timeout }
+      let w := event w s!"send:{String.fromUTF8! ⟨s.conf.name.toArray⟩}:{toHex (rq.buf.getD [])}"
+      if w.radputOk then w else updSrv w si incLost
+    | .wait => w
+
 /-- the `for (i = 0; i < MAX_REQUESTS; i++)` scan of one pass, from slot `i` -/
 def writerScan (w : World) (si : Nat) (doResend : Bool) : Nat → Nat → World
   | 0, _ => w
@@ -805,30 +834,7 @@ def writerScan (w : World) (si : Nat) (doResend : Bool) : Nat → Nat → World
     | some s =>
       let sl := slotOf s i
       match sl.rq, sl.rq.bind (getRq w) with
-      | some _, some rq =>
-        let isProbe : Bool := match rq.buf with | some b => decide (b.getD 0 0 = 12) | none => false
-        let tries := triesAfterReset doResend sl.tries
-        let w := updSrv w si fun s => { s with slots := s.slots.set i { sl with tries := tries } }
-        match slotDecision doResend w.now sl isProbe s.conf.retryCount s.conf.retryInterval with
-        | .wait =>
-          let w := updSrv w si fun s => { s with timeout := if s.timeout = 0 ∨ sl.expiry < s.timeout then sl.expiry else s.timeout }
-          writerScan w si doResend fuel (i + 1)
-        | act =>
-          let w := updSrv w si fun s =>
-            { s with ssRequested := s.ssRequested || (tries > 0 ∧ w.now - s.lastrcv > s.conf.retryInterval ∧ !doResend) }
-          match act with
-          | .dropProbe => writerScan (freerqoutdata w si i) si doResend fuel (i + 1)
-          | .abandon =>
-            let w := updSrv w si fun s => lossOnAbandon s isProbe
-            writerScan (freerqoutdata w si i) si doResend fuel (i + 1)
-          | .send tries' expiry =>
-            let w := updSrv w si fun s =>
-              { s with slots := s.slots.set i { sl with tries := tries', expiry := expiry },
-                       timeout := if s.timeout = 0 ∨ expiry < s.timeout then expiry else s.timeout }
-            let w := event w s!"send:{String.fromUTF8! ⟨s.conf.name.toArray⟩}:{toHex (rq.buf.getD [])}"
-            let w := if w.radputOk then w else updSrv w si incLost
-            writerScan w si doResend fuel (i + 1)
-          | .wait => writerScan w si doResend fuel (i + 1)
+      | some _, some rq => writerScan (writerSlot w si doResend i s sl rq) si doResend fuel (i + 1)
       | _, _ => writerScan w si doResend fuel (i + 1)
 
 /-- one pass of the `for(;;)` body after the wait -/
@@ -986,5 +992,41 @@ def udpLoopTop (w : World) : World :=
   match w.udpPending with
   | some _ => w
   | none => let (w, o') := newrequest w; { w with udpPending := some o' }
+
+/-! ### histories -/
+
+/-- the operations of a history (the UDP listener's own association handling is not among them) -/
+inductive Op
+  | client (conf : Nat)                 -- a new association of client block `conf`
+  | rq (ci : Nat) (pkt : Bytes)         -- a packet from association `ci`: new request object, `radsrv`
+  | reply (si : Nat) (buf : Bytes)      -- bytes from server `si`: `replyh`
+  | writer (si : Nat)                   -- the client writer of server `si` is scheduled
+  | tick (n : Nat)                      -- the clock advances
+  | reset (si : Nat)                    -- the connection to server `si` is re-established
+  | srvstate (si st lost : Nat)         -- a transport thread reports a state
+  | pop (ci : Nat)                      -- the server-side writer of association `ci` sends what is queued
+  | rmclient (ci : Nat)                 -- association `ci` goes away
+  | radput (ok : Bool)                  -- whether transmissions succeed from now on
+  | oracle (rx : RxOracle) (rnds : List Bytes)   -- what regexec / RAND_bytes will answer next
+  | waitbound (si : Nat)                -- the writer of server `si` computes how long it may sleep (thread start-up)
+
+/-- one operation -/
+def step (w : World) : Op → World
+  | .client conf => { w with clients := w.clients ++ [{ conf := conf }] }
+  | .rq ci pkt =>
+    let p := newrequest w
+    let w1 := updRq p.1 p.2 fun r => { r with buf := some pkt, frm := some ci }
+    (radsrv w1 p.2).1
+  | .reply si buf => (replyh w si buf).1
+  | .writer si => (writerOp w si).1
+  | .tick n => { w with now := w.now + n }
+  | .reset si => connReset w si
+  | .srvstate si st lost => updSrv w si fun s => { s with state := st, lost := lost }
+  | .pop ci => (popReplies w ci).1
+  | .rmclient ci => removeclient w ci
+  | .radput ok => { w with radputOk := ok }
+  | .oracle rx rnds => { w with rx := rx, rnds := rnds }
+  | .waitbound si => (writerWaitBound w si).1
+
 
 end Rsp.World
